@@ -153,6 +153,10 @@ func runC11(w *fw.Worker) {
 			os.Unsetenv(v)
 		}
 		noPrefixVars = noPrefixVars[:0]
+		if !gen.FlattenedNamesDistinct(leaves) {
+			w.Count("skipped_ambiguous_variable_names", 1)
+			return
+		}
 		// the statement's naming rule must be unambiguous for this type
 		names := map[string]bool{}
 		for _, lr := range leaves {
